@@ -280,7 +280,12 @@ func (x *Run) load(st *State, a *Addr, ty types.Type) Val {
 	case AField:
 		v = x.selPath(x.loadField(st, a.Ref, a.Ty, a.Field), a.Sel)
 		if isRefType(v.Ty) || x.d.slices[v.S] != "" {
-			v.Guard = a.Guard
+			// the lock protects the field and, for maps / slices / channels, the
+			// contents reached through it; an object a guarded pointer field points
+			// to has its own synchronisation
+			if _, isPtr := types.Unalias(v.Ty).Underlying().(*types.Pointer); !isPtr {
+				v.Guard = a.Guard
+			}
 			if len(a.Sel) == 0 {
 				v.Origin = fieldArrayName(a.Ty, a.Field)
 			}
